@@ -73,10 +73,32 @@ Definition closed_before (ts : list thr) (sched : list nat) (w : nat) (p : nat) 
   existsb (fun i => (2 <=? length (filter (Nat.eqb i) sched))%nat &&
                     match last_pos i sched 0 None with Some lp => (lp <? p)%nat | None => false end) (closer_of ts w).
 
+(* the name of a target is taken from a successful Watch until the Close of that watcher has RETURNED (its second step):
+   replay the schedule keeping the set of (name, watcher) holders and say what every Watch must answer *)
+Fixpoint expected_watches (ts : list thr) (sched : list nat) (holders : list (bytes * nat)) (steps_done : list nat)
+  : list (nat * bool) :=
+  match sched with
+  | [] => []
+  | i :: r =>
+      let done_before := length (filter (Nat.eqb i) steps_done) in
+      match nth_error ts i with
+      | Some (TWatch w n _) =>
+          let free := negb (existsb (fun h => bytes_eqb (fst h) n) holders) in
+          (i, free) :: expected_watches ts r (if free then (n, w) :: holders else holders) (i :: steps_done)
+      | Some (TClose w n _) =>
+          (* second step of this closer thread = removal done and Close returned *)
+          let holders' := if Nat.eqb done_before 1 then filter (fun h => negb (Nat.eqb (snd h) w)) holders else holders in
+          expected_watches ts r holders' (i :: steps_done)
+      | _ => expected_watches ts r holders (i :: steps_done)
+      end
+  end.
+
 Definition prop_c11 (input impl : val) : option Z :=
   let ts := thr_list input in
   let sched := map as_nat (as_L (nthv 1 input)) in
   let results := as_L (nthv 0 impl) in
+  let live0 := map as_nat (as_L (nthv 2 (nthv 0 input))) in
+  let watched0 := map as_S (as_L (nthv 3 (nthv 0 input))) in
   let check_routed (r : val) (p : nat) : bool :=
     match as_L r with
     | [_; id] => match desc_owner ts (as_Z id) with
@@ -94,6 +116,8 @@ Definition prop_c11 (input impl : val) : option Z :=
         | _ => true
         end) (combine (seq 0 (length ts)) (combine ts results))) then Some 1
   else if negb (forallb (fun r => check_routed r (length sched)) (as_L (nthv 1 impl))) then Some 1
+  else if negb (forallb (fun ib => val_eqb (nth (fst ib) results (VN (-9))) (vbool (snd ib)))
+                        (expected_watches ts sched (combine watched0 live0) [])) then Some 2
   else None.
 
 Definition chk_c11 : val -> val := mk_chk run_c11 prop_c11.
